@@ -224,7 +224,7 @@ pub fn rep_moves(r: &RepRecipe) -> Option<(Pos, Vec<Move>)> {
 pub fn rep_strategy(max_walk: usize, endgame_bias: bool) -> impl Strategy<Value = RepRecipe> {
     // near-mate placements (few men, so quiescence stays small) bring mate scores, forced lines and
     // stalemate traps into the mix
-    let near_mate = (placement_near_mate().prop_map(Start::Placement), proptest::collection::vec(any::<u16>(), 0..3)).prop_map(|(start, choices)| WalkRecipe { start, choices });
+    let near_mate = (prop_oneof![2 => placement_near_mate(), 1 => placement_heavy_net()].prop_map(Start::Placement), proptest::collection::vec(any::<u16>(), 0..3)).prop_map(|(start, choices)| WalkRecipe { start, choices });
     let walk = if endgame_bias { prop_oneof![4 => endgame_walk_strategy(max_walk), 2 => gamelike_walk_strategy(max_walk), 3 => near_mate].boxed() } else { prop_oneof![4 => gamelike_walk_strategy(max_walk), 1 => near_mate].boxed() };
     (walk, prop_oneof![5 => Just(0u8), 3 => 1u8..3, 2 => 2u8..6], any::<u16>(), any::<u16>(), 0u8..4).prop_map(|(walk, cycles, c1, c2, tail_cut)| RepRecipe { walk, cycles, c1, c2, tail_cut })
 }
